@@ -334,7 +334,10 @@ class StatelessDistributionFamilyFromTorchDistribution(StatelessDistributionFami
             A weighted tensor containing the NLL values (with negative log-probabilities in `.value`)
             and the same weights as the input `x`.
         """
-        return WeightedTensor(-cls.dist_factory(*params).log_prob(x.value), x.weight)
+        # masked entries may hold anything (nan, a placeholder): `log_prob` validates the support of every cell,
+        # so they are replaced by a value of the support before the call (their nll is weighted 0 anyway)
+        value = x.value if x.weight is None else x.filled(0)
+        return WeightedTensor(-cls.dist_factory(*params).log_prob(value), x.weight)
 
     @classmethod
     def _nll_and_jacobian(
